@@ -297,6 +297,18 @@ def _rest_after_r2(ctx, core, cg, G_holder=None):
             ctx.inst("C03.R4", "operator-word=%s" % w, None, "`%s` is spelled as a word but only occurs in infix position, where no name can start: it is bindable as a name today; whether the statement counts it as a keyword is not decided" % w, "blots-core/src/grammar.pest")
             continue
         ctx.inst("C03.R4", "keyword=%s" % w, w in refused, "the grammar uses `%s` as a keyword token (in %s) but `identifier` can produce it; refused by the top-level assignment arm: %s" % (w, sorted(kw[w]), w in refused), "blots-core/src/grammar.pest")
+    ibf = core.hir.get("blots_core::functions::is_built_in_function")
+    if ibf is not None:
+        from lib import sig as S_
+        pn_ = (H.pat_binds(ibf["params"][0]) or ["ident"])[0]
+        t_ = S_.norm(ibf["body"], S_.Env(roles={pn_: ("name",)}))
+        pre = [H.kind(x) for x in H.walk(ibf["body"]) if H.kind(x) in ("Ret", "If", "Match", "Loop", "For")]
+        v_ = S_.verdict(t_, ("call", "is_some", ("fn", "from_ident", ("name",))))
+        if pre and v_ is True:
+            v_ = False if "Ret" in pre else None
+            t_ = ("?", "early exit before the table lookup")
+        ctx.inst("C03.R4", "is_built_in_function", v_,
+                 "is_built_in_function(name) = %s (must be exactly the table lookup from_ident(name).is_some(): any pre-filter on the spelling lets some built-in name through)" % S_.show(t_)[:160], H.loc(ibf["body"]))
     ctx.inst("C03.R4", "builtins", bi is not None, "built-in names are refused through is_built_in_function (completeness of from_ident is C05.L7)", H.loc(assign_arm["body"]))
 
     # ------------- R5 what a bound name refers to is never modified in place
